@@ -321,18 +321,23 @@ func (s *ServerConn) Abort(rst bool) {
 	if rst {
 		err = syscall.ECONNRESET
 	}
-	s.p.s2c.closeWrite(err)
+	// declared dead before the client can observe the end of the stream, so that
+	// ClientWroteAfterCut never counts bytes written before the cut
 	s.MarkDead()
+	s.p.s2c.closeWrite(err)
 }
 
 // MarkDead records that, from the harness' point of view, the client must not
 // use this connection any more; later client writes are counted.
 func (s *ServerConn) MarkDead() {
-	if !s.p.dead.Swap(true) {
-		s.p.c2s.mu.Lock()
+	// the byte count is stored before the flag becomes visible: a concurrent
+	// Conns() must never see Dead with a zero baseline
+	s.p.c2s.mu.Lock()
+	if !s.p.dead.Load() {
 		s.p.writtenAtDeath.Store(s.p.c2s.written)
-		s.p.c2s.mu.Unlock()
+		s.p.dead.Store(true)
 	}
+	s.p.c2s.mu.Unlock()
 }
 
 // SetChunk limits how many bytes a single client Read returns (0 = no limit).
